@@ -145,7 +145,9 @@ void blockval_world(const Plan &p, Result &res) {
     else if (out.sched.status) res.fail(sig("all-ranks-terminate", "tick-budget", out.sched.blocked));
     else {
         bool threw = false;
-        for (int r = 0; r < R; ++r) if (!out.rank_exception[r].empty()) { threw = true; res.fail(sig("no-exception", "rank-threw", fmt("rank %d: %s", r, out.rank_exception[r].c_str()))); break; }
+        bool all_same_exc = true; for (int r = 0; r < R; ++r) if (out.rank_exception[r].empty() || out.rank_exception[r] != out.rank_exception[0]) all_same_exc = false;
+        if (all_same_exc && out.rank_exception[0].find("BiCGStab") != std::string::npos) { threw = true; res.counts["consistent_krylov_breakdown"]++; }      // as in the scalar worlds
+        else for (int r = 0; r < R; ++r) if (!out.rank_exception[r].empty()) { threw = true; res.fail(sig("no-exception", "rank-threw", fmt("rank %d: %s", r, out.rank_exception[r].c_str()))); break; }
         if (!threw) {
             for (int r = 1; r < R; ++r) if (!bits_equal(iters[r], iters[0]) || !bits_equal(resid[r], resid[0])) { res.fail(sig("rank-consistent", "same-iterations-and-residual", fmt("rank 0: %.0f iterations, residual %.17g; rank %d: %.0f, %.17g", iters[0], resid[0], r, iters[r], resid[r]))); break; }
             long double rr = 0, ff = 0, ainf = 0, xinf = 0, finf = 0; long maxrow = 1;
